@@ -643,14 +643,6 @@ theorem addW_zero (h : Bytes) (hl : h.length = 8) : addBitSizeW 64 h 0 = h := by
   rw [this, ← hl]
   exact C01.Aead.natLE_leNat h
 
-theorem addW_ne_zero (n : Nat) (h0 : 0 < n) (hn : n < 2 ^ 61) : addBitSizeW 64 (zeros 8) n ≠ zeros 8 := by
-  intro h
-  have h' := congrArg leNat h
-  rw [addW_eq, C01.Aead.leNat_natLE, pow256_8] at h'
-  have hz : leNat (zeros 8) = 0 := by decide
-  rw [hz] at h'
-  omega
-
 theorem length_lenI (len : Bytes) (n : Nat) (hl : len.length = 16) : (lenI len n).length = 16 := by
   simp only [lenI, List.length_append, C01.Aead.length_addBitSizeW, List.length_drop, hl]
 
@@ -819,11 +811,52 @@ theorem flushA_neg (p : PolySt) (n : Nat) (h : p.len.drop 8 ≠ zeros 8) : flush
   unfold flushA
   rw [if_neg (fun h' => h h'.2.1)]
 
-/-- critical data in two fragments = critical data in one fragment (exact equality of states), as long as the
-bit counter of the critical data (zero at the beginning) does not wrap: it is the counter that tells StepA
-whether a pending open-data block still has to be flushed -/
-theorem polyStepA_append {p : PolySt} (hi : PInv p) (hz : p.len.drop 8 = zeros 8) (a b : Bytes)
-    (hl : a.length + b.length < 2 ^ 61) :
+theorem absorbByte_filled (p : PolySt) (hi : PInv p) (c : UInt8) :
+    (absorbByte p c).filled = (p.filled + 1) % 16 := by
+  have hf := hi.fil
+  unfold absorbByte
+  by_cases h15 : p.filled = 15
+  · rw [if_pos h15, h15]
+  · rw [if_neg h15]; show p.filled + 1 = _; omega
+
+theorem foldl_absorbByte_filled (buf : Bytes) : ∀ (p : PolySt), PInv p →
+    (buf.foldl absorbByte p).filled = (p.filled + buf.length) % 16 := by
+  induction buf with
+  | nil => intro p hi; have := hi.fil; show p.filled = _; simp only [List.length_nil]; omega
+  | cons c buf ih =>
+    intro p hi
+    rw [List.foldl_cons, ih _ (absorbByte_inv p hi c), absorbByte_filled p hi, List.length_cons]
+    omega
+
+/-- the fill level after a call: octets absorbed so far modulo the block size -/
+theorem absorb16_filled (p : PolySt) (hi : PInv p) (buf : Bytes) :
+    (absorb16 p buf).filled = (p.filled + buf.length) % 16 := by
+  rw [absorb16_foldl buf p hi]; exact foldl_absorbByte_filled buf p hi
+
+theorem flushA_fil0 (p : PolySt) (n : Nat) (h : p.filled = 0) : flushA p n = p := by
+  unfold flushA
+  rw [if_neg (fun h' => h'.2.2 h)]
+
+/-- after the first non-empty critical fragment nothing of the open data is pending -/
+theorem flushA_filled (p : PolySt) (n : Nat) (hn : n ≠ 0) (hz : p.len.drop 8 = zeros 8) : (flushA p n).filled = 0 := by
+  unfold flushA
+  by_cases hf : p.filled ≠ 0
+  · rw [if_pos ⟨hn, hz, hf⟩]
+  · rw [if_neg (fun h' => hf h'.2.2)]; omega
+
+/-- a zero bit counter after `n` octets means `n` is a multiple of 2^61, hence of the block size -/
+theorem addW_eq_zero (n : Nat) (h : addBitSizeW 64 (zeros 8) n = zeros 8) : n % 16 = 0 := by
+  have h' := congrArg leNat h
+  rw [addW_eq, C01.Aead.leNat_natLE, pow256_8] at h'
+  have hz : leNat (zeros 8) = 0 := by decide
+  rw [hz] at h'
+  omega
+
+/-- critical data in two fragments = critical data in one fragment (exact equality of states), from every state
+whose critical-data counter is zero (no critical data yet).  NO bound on the lengths: the 64-bit bit counter of the
+critical data can return to zero only after a multiple of 2^61 octets, i.e. of whole blocks, and then no octets
+are pending, so StepA's "first critical fragment?" test cannot flush a second time. -/
+theorem polyStepA_append {p : PolySt} (hi : PInv p) (hz : p.len.drop 8 = zeros 8) (a b : Bytes) :
     polyStepA 64 (polyStepA 64 p a) b = polyStepA 64 p (a ++ b) := by
   by_cases ha : a.length = 0
   · have : a = [] := List.eq_nil_of_length_eq_zero ha
@@ -836,10 +869,17 @@ theorem polyStepA_append {p : PolySt} (hi : PInv p) (hz : p.len.drop 8 = zeros 8
       rw [polyStepA_def, flushA_len]
     have hqlen : (polyStepA 64 p a).len = lenA p.len a.length := by
       rw [hq, C01.Aead.absorb16_len]
+    have hqfil : (polyStepA 64 p a).filled = a.length % 16 := by
+      rw [hq, absorb16_filled _ (setLen_inv h1 _ (length_lenA _ _ hi.len))]
+      show ((flushA p a.length).filled + a.length) % 16 = _
+      rw [flushA_filled p _ ha hz, Nat.zero_add]
     have hfl : flushA (polyStepA 64 p a) b.length = polyStepA 64 p a := by
-      apply flushA_neg
-      rw [hqlen, lenA_drop _ _ hi.len, hz]
-      exact addW_ne_zero _ (by omega) (by omega)
+      by_cases hc : (polyStepA 64 p a).len.drop 8 = zeros 8
+      · apply flushA_fil0
+        rw [hqlen, lenA_drop _ _ hi.len, hz] at hc
+        rw [hqfil]
+        exact addW_eq_zero _ hc
+      · exact flushA_neg _ _ hc
     rw [polyStepA_def (polyStepA 64 p a) b, hfl, hqlen, lenA_add _ _ _ hi.len, hq,
       absorb16_setLen (flushA p a.length)]
     dsimp only
@@ -869,17 +909,14 @@ theorem polySpec_stepI {p p0 : PolySt} (h0 : PInv p0) (I A d : Bytes) (h : PEq p
     rw [e]
     exact polyStepI_congr h d
 
-/-- StepA on a state that stands for `(I, A)` -/
+/-- StepA on a state that stands for `(I, A)`: always allowed -/
 theorem polySpec_stepA {p p0 : PolySt} (h0 : PInv p0) (hz : p0.len.drop 8 = zeros 8) (I A d : Bytes)
-    (h : PEq p (polySpec p0 I A)) (hl : (A ++ d).length < 2 ^ 61) :
-    PEq (polyStepA 64 p d) (polySpec p0 I (A ++ d)) := by
+    (h : PEq p (polySpec p0 I A)) : PEq (polyStepA 64 p d) (polySpec p0 I (A ++ d)) := by
   have e : polySpec p0 I (A ++ d) = polyStepA 64 (polySpec p0 I A) d := by
     unfold polySpec
-    rw [polyStepA_append (polyStepI_inv h0 I) (by rw [polyStepI_lenDrop]; exact hz) A d
-      (by simpa only [List.length_append] using hl)]
+    rw [polyStepA_append (polyStepI_inv h0 I) (by rw [polyStepI_lenDrop]; exact hz) A d]
   rw [e]
   exact polyStepA_congr h d
-
 
 /-! ### sessions of an AEAD bundle: vocabulary -/
 
@@ -907,11 +944,10 @@ def absRun (a : Absorbed) : List (Call AeadOp) → Absorbed
 
 /-- belt.h on `beltDWPStepI` / `beltCHEStepI`: open data must be processed before critical data — the ASSERT
 `count == 0 || beltHalfBlockIsZero(st->len + W_OF_B(64))`: no NON-EMPTY StepI fragment after a non-empty StepA
-fragment.  StepA: the bit length of the critical data must fit the 64-bit counter (< 2^61 octets), as in
-STB 34.101.31; the counter is what StepA tests to find out whether it sees the first critical fragment. -/
+fragment.  Nothing else is required (in particular no bound on the lengths: the bit counters are 64-bit words that
+wrap, in the fragmented session exactly as in the one-call computation, see `polyStepA_append`). -/
 def admOp (A : Bytes) : AeadOp → Bool
   | .ad d => d.isEmpty || A.isEmpty
-  | .auth d => decide ((A ++ d).length < 2 ^ 61)
   | _ => true
 
 /-- admissible continuation of a session that has absorbed `a` -/
@@ -1071,10 +1107,7 @@ theorem dwpSim_step (C : Cipher) (hlen : ∀ k x, x.length = 16 → (C.enc k x).
     exact polySpec_stepI h0 a.I a.A d h.p this
   | auth d =>
     refine ⟨⟨h.ctr, ?_⟩, rfl⟩
-    have : (a.A ++ d).length < 2 ^ 61 := by
-      simp only [admOp, decide_eq_true_eq] at hadm
-      exact hadm
-    exact polySpec_stepA h0 rfl a.I a.A d h.p this
+    exact polySpec_stepA h0 rfl a.I a.A d h.p
   | encr d =>
     have hc := dwpRel_crypt C hlen key iv hiv h d
     refine ⟨⟨hc.2, h.p⟩, ?_⟩
@@ -1348,10 +1381,7 @@ theorem cheSim_step (C : Cipher) (hlen : ∀ k x, x.length = 16 → (C.enc k x).
     exact polySpec_stepI h0 a.I a.A d h.p this
   | auth d =>
     refine ⟨⟨⟨h.ks.key, h.ks.sv, h.ks.blk, h.ks.res⟩, ?_⟩, rfl⟩
-    have : (a.A ++ d).length < 2 ^ 61 := by
-      simp only [admOp, decide_eq_true_eq] at hadm
-      exact hadm
-    exact polySpec_stepA h0 rfl a.I a.A d h.p this
+    exact polySpec_stepA h0 rfl a.I a.A d h.p
   | encr d =>
     have hc := cheRel_crypt C hlen key iv hiv h d
     refine ⟨⟨hc.2.1, ?_⟩, ?_⟩
